@@ -63,6 +63,13 @@ Example C11_nonvacuous :
   delivered (copy_fuel data script) data script = ([firstn 7 data; firstn 100 (skipn 7 data)], EndErr 5).
 Proof. vm_compute. reflexivity. Qed.
 
+(* the functions of the modelled source are exactly the functions the model was written against
+   (gen/GenApi.v is regenerated from /repo on every run; see Model/ApiSurface.v) *)
+From V Require gen.GenApi Model.ApiSurface.
+Theorem C11_api_io : GenApi.api_io = ApiSurface.expected_io.
+Proof. reflexivity. Qed.
+
+Print Assumptions C11_api_io.
 Print Assumptions C11_copy_wide_spec.
 Print Assumptions C11_delivered_prefix.
 Print Assumptions C11_delivered_pieces.
